@@ -32,6 +32,8 @@ type PFlags struct {
 	Budget    int
 	NoFaults  bool
 	MaxRec    int // largest argument given to recursion templates
+	HotStr    bool // string literals over the hot alphabet (tab, CR, quotes, JSON-looking multi-line text …) instead of plain ones
+	FnEq      bool // = applied to functions (the reference interpreter leaves it unspecified: only for differential use between routes)
 }
 
 type tvar struct {
@@ -377,7 +379,7 @@ func (g *pg) leaf(ty Ty, sc scope) val.V {
 		case 1:
 			return val.K(rapid.SampledFrom([]string{"a", "b", "k"}).Draw(g.t, "kw"))
 		case 2:
-			return val.S(Str(g.t, "str", Opts{Str: StrPlain}))
+			return val.S(g.str("str"))
 		case 3:
 			return g.leaf(TInt, sc)
 		case 4:
@@ -628,7 +630,33 @@ func (g *pg) intExpr(d int, sc scope) val.V {
 	return g.leaf(TInt, sc)
 }
 
+// str draws a string literal's content.
+func (g *pg) str(label string) string {
+	if g.f.HotStr && !g.chance(label+"plain", 2) {
+		g.use("hot-string")
+		return Str(g.t, label+"hot", Opts{Str: StrHot, NoKwMark: true, NoNUL: true})
+	}
+	return Str(g.t, label, Opts{Str: StrPlain})
+}
+
 func (g *pg) boolExpr(d int, sc scope) val.V {
+	if g.f.FnEq && g.chance("fneq", 15) {
+		g.use("fn-equality")
+		a, b := g.expr(TFn, d-1, sc), g.expr(TFn, d-1, sc)
+		var e val.V
+		switch g.pick("fneqk", 3) {
+		case 0:
+			e = call("=", a, b)
+		case 1:
+			e = call("=", val.Vc(val.I(1), a), val.Vc(val.I(1), b))
+		default:
+			e = call("=", a, sym(rapid.SampledFrom([]string{"+", "first", "not"}).Draw(g.t, "fneqb")))
+		}
+		if g.f.Try && !g.chance("fneqbare", 3) {
+			return call("try", e, call("catch", sym("e"), val.B(false)))
+		}
+		return e
+	}
 	switch c := g.pick("bool", 9); {
 	case c <= 1:
 		op := rapid.SampledFrom([]string{"<", "<=", ">", ">="}).Draw(g.t, "cmp")
